@@ -1000,7 +1000,7 @@ func canonRow(row []any, cols []ColSpec) string {
 	for i, v := range row {
 		cv, ok := CanonOfGo(v)
 		if !ok {
-			fmt.Fprintf(&sb, " [?%T]", v)
+			fmt.Fprintf(&sb, " [?%T %v]", v, v)
 			continue
 		}
 		if cv.Kind == "ts" && i < len(cols) && pgwire.KindOf(cols[i].OID) == "date" {
